@@ -14,7 +14,8 @@
      nameserver argument: tokens separated by ' ' or ','; a token that can be a server starts
                 with a hex digit, ':', '.', or '['
      sortlist argument: at least one token between ' ' and ';'; each token starts with one of
-                "ABCDEFabcdef0123456789.:"
+                "ABCDEFabcdef0123456789.:"; a numeric prefix length has at most three digits and is
+                at most 128
      options argument: tokens separated by blanks; token := name | name ':' number
                 names: ndots timeout retrans attempts retry rotate use-vc usevc;
                 number := decimal digits (timeout/retrans/attempts/retry: not zero)
@@ -70,10 +71,26 @@ Definition cannot_start_server (t : bytes) : bool :=
 Definition cannot_start_pattern (t : bytes) : bool :=
   match t with [] => true | c :: _ => negb (mem c s_ipcharset || isspace c) end.
 
+(* a sortlist entry  address "/" digits  whose prefix length is not one for any address family:
+   more than three digits, or a value above 128 (numeric extremes: 129, 255, 256, 264, 999, 2^32+8 ...) *)
+Definition bad_mask_token (t : bytes) : bool :=
+  let sp := span (fun c => mem c s_ipcharset) (dropwhile isspace t) in
+  match snd sp with
+  | c :: r =>
+    if c =? ch_slash then
+      let m := fst (span (fun c => mem c s_digits_dot) r) in
+      forallb isdigit m && negb (length m =? 0)%nat && ((3 <? length m)%nat || (128 <? digits_value m)%Z)
+    else false
+  | [] => false
+  end.
+
+(* a sortlist string (resolv.conf value or ares_set_sortlist argument) with such an entry *)
+Definition sortlist_has_bad_mask (s : bytes) : bool := existsb bad_mask_token (tokens s_sep_sortlist s).
+
 (* junk classes of a (trimmed, non-empty) resolv.conf line; None: not junk *)
 Inductive jclass := JComment | JUnknownKeyword | JNoArgument | JUnprintable | JOverlong
                   | JNameserverTokens | JSortlistToken | JOptionsPlain | JOptionsNumeric
-                  | JSearchEmpty | JLookupNoWord.
+                  | JSearchEmpty | JLookupNoWord | JSortlistMask.
 
 Definition junk_class_resolv (l : bytes) : option jclass :=
   match l with
@@ -94,7 +111,8 @@ Definition junk_class_resolv (l : bytes) : option jclass :=
             if forallb cannot_start_server (tokens s_sep_servers a) then Some JNameserverTokens else None
           else if bytes_eqb k k_sortlist then
             match tokens s_sep_sortlist a with
-            | t :: _ => if cannot_start_pattern t then Some JSortlistToken else None
+            | t :: ts => if cannot_start_pattern t then Some JSortlistToken
+                         else if existsb bad_mask_token (t :: ts) then Some JSortlistMask else None
             | [] => Some JSortlistToken              (* nothing but separators *)
             end
           else if bytes_eqb k k_options then
@@ -146,7 +164,7 @@ Definition jclass_id (j : jclass) : N :=
   match j with
   | JComment => 0 | JUnknownKeyword => 1 | JNoArgument => 2 | JUnprintable => 3 | JOverlong => 4
   | JNameserverTokens => 5 | JSortlistToken => 6 | JOptionsPlain => 7 | JOptionsNumeric => 8
-  | JSearchEmpty => 9 | JLookupNoWord => 10
+  | JSearchEmpty => 9 | JLookupNoWord => 10 | JSortlistMask => 11
   end.
 
 (* C15 ranges as documented (docs/ares_init_options.3: ndots valid range 0-15) and as needed by
